@@ -27,7 +27,7 @@ def run(tier, seed):
     # consumers that cost seconds under ASan (key checks, the cut-and-choose verifier with its TMCG_MAX_STACK_CHARS
     # buffers) get fewer cases
     if tier == "quick":
-        heavy = {"ccproof": 24, "pubkey": 40, "seckey": 40, "qstack": 60, "qssec": 60, "sig": 40, "enc": 40}
+        heavy = {"ccproof": 24, "qccproof": 24, "pubkey": 40, "seckey": 40, "qstack": 60, "qssec": 60, "sig": 40, "enc": 40}
         bytype = {}
         binary = {x["type"] for x in samples if x.get("binary")}
         for c in cases:
@@ -39,6 +39,8 @@ def run(tier, seed):
                 cap = len(cs)          # parsing binary OpenPGP data costs milliseconds: the whole enumeration
             step = max(1, len(cs) // cap)
             cases += cs[(seed % step)::step]
+            # the dimension / count / index fields are few and are where wrong-sized answers come from: all of them
+            cases += [c for c in cs if c["op"] == "SetDim" and c not in cs[(seed % step)::step]]
     nchunks = 16
     parts = [cases[k::nchunks] for k in range(nchunks)]
     def one(k):
